@@ -22,6 +22,10 @@ CONSTANTS
   MaxMigs = 1
   StaleTableAtStart = FALSE
   MaxFollowed = 0
+  DeathKinds = {"refused"}
+  RefreshOnTimeout = TRUE
+  PromotedFlags = {{"master"}}
+  ParserSkips = {}
   Pipelined = FALSE
   MaxBurst = 4
   HoldRefresh = FALSE
